@@ -55,6 +55,23 @@ TEXT = {
             "players) with the monitor as invariant, two regression runs with the pinned pre-fix behaviour must fail; TLC "
             "schedules and random delay sequences 0..6 are executed on real sessions and judged by the monitor (owner, "
             "remotes and spectators use identical inputs, nothing stranded).", "DESIGN.md section 3 C11"),
+    "C08": ("Which payloads are 'not a valid encoding' is decided by Codec.tla; every byte string up to 2 bytes (thorough: "
+            "3) goes through the real decode and TLC validates each record against SpecDecode (no panic, bounded "
+            "allocation); forged packets of all listed kinds, derived from genuine ones, are injected at random points "
+            "of real runs (handshake, running, after a disconnect) and the TLA+ monitor demands delivered inputs = "
+            "owner-side truth, intact event automata and no panic; Trace_Twin.tla compares with the unforged twin.",
+            "DESIGN.md section 3 C08"),
+    "C12": ("MC_Handshake.tla (Protocol.tla operators, loss/dup/reorder/stray replies): Running iff 5 matched round "
+            "trips, event word well formed, liveness; on real traces the TLA+ monitor runs a per-address event automaton, "
+            "counts matched request/reply round trips from the packets, relates Running/NotSynchronized to them, times "
+            "NetworkInterrupted/Disconnected against the virtual clock (silences notify/timeout -220..+150 ms), "
+            "bounds the event queue in never-drained sessions and forbids interruptions for poll-only pairs.",
+            "DESIGN.md section 3 C12"),
+    "C14": ("Codec.tla transcribes the codec; MC_Codec checks RoundTrip/Total/EncodeValid exhaustively on small alphabets; "
+            "the real codec is run on every decoder input up to 2 bytes (thorough: 3) and on the small exhaustive "
+            "(reference, inputs) space, and TLC validates every record against SpecDecode / SpecEncode; random large "
+            "inputs (to 65535 bytes, long runs) round-trip; peak allocation is measured. Edge of the technique: the "
+            "specification supplies oracle and exhaustive small space, long inputs are sampled.", "DESIGN.md section 3 C14"),
 }
 
 NOTE = ("Trusted: TLC 1.8.0 + CommunityModules, the harness projection (world.rs) and virtual clock shim, the "
